@@ -27,17 +27,48 @@
 #   record; every name used in a list position in that function (base of x[..], x.length, len(x), receiver of a mutating or
 #   copying method, iterated, destructured, emitted, operand of list +); every name assigned from a list-valued expression
 #   (LV name, copy, concatenation, display, comprehension, get_record / get_rhs call); every parameter bound to one at a call.
-#   Never: self this query_context.  Every other name is UNTRACKED: its value is treated as an opaque cell value.
-#   DEPTH of an LV name (flow-insensitive maximum over its binding sites and over everything stored into it): 1 = a flat row
-#   (get_record(), copies / concatenations of rows, displays without LV elements, a write(..) parameter named like a row),
-#   2 = a container of rows ((key, record), [1, record], a join match), 3 = get_rhs(..); unknown (99) for anything read back
-#   from untracked state.  x[i] / iteration / destructuring of a depth-1 object is a CELL (RCell: never owned - rows are copied
-#   shallowly, so a cell reached through any row may be shared with a source row); of a deeper object it is RElem.
+#   Also: every LOCAL name that is an argument of a call to untranslated code (unknown function / method / constructor) or of a
+#   RESOLVED method (calls rule) - so a cell that travels through a local to such a callee is judged as a cell.
+#   Never: self this query_context.  Every other name is UNTRACKED: its value is treated as an opaque cell value (it may BE a
+#   source cell); an untracked value may be kept anywhere, but whatever is read back from untracked state is a CELL unless
+#   element trust (below) proves the position.
+#   DEPTH of an LV name (flow-insensitive MAXIMUM over its binding sites and over everything stored into it; an UPPER bound):
+#   1 = a flat row (get_record(), copies / concatenations of rows, displays without LV elements, a write(..) parameter named
+#   like a row), 2 = a container of rows, 3 = get_rhs(..); unknown (99) for anything read back from untracked state.  It is
+#   used only to let a CELL into a flat row without a statement (store rule).
+#   ELEMENT TRUST - SHAPE of a value (flow-insensitive MEET over its binding sites and store sites; a LOWER bound; greatest
+#   fixpoint; see "shapes" in the code):  A = untrusted (an atom, a cell, anything that came through an untracked name or unknown
+#   code);  S(pre; s1..sn) = a tracked list object: elements of shape pre, then n fixed last positions (an exact tuple / display
+#   when pre is empty);  M(k, v) = a tracked map.  x[i] / x[x.length-1] / x[-1] / iteration / destructuring / x.pop() / m.get(k) is
+#   classified STEP BY STEP: the result is RElem (an owned object, clean iff the container is) ONLY when that position has a
+#   tracked shape, i.e. at EVERY binding site and store site it syntactically holds a tracked list object (which was SStore'd,
+#   or is a new display / copy); in every other case it is RCell (never clean) - so the cells of a row, a row that was made
+#   "deeper" by storing a list into it, the sort key next to the record in (key, record), a value read back from an attribute
+#   that some site assigns an untracked value, are all CELLS.  (RElem also still needs DEPTH > 1.)
+#   Writer state: ATTR_SHAPES[(class, X)] = the meet over ALL store sites of attribute X in ALL methods (constructors and
+#   untranslated methods included) of the writer classes and of the classes of the RESOLVED methods: self.X = v, self.X.append(v),
+#   self.X[k] = v, self.X.set(k, v), self.X[k].append(v), also through a local alias name = self.X; RET_SHAPES[(class, m)] = the
+#   meet of what method m returns (self.m() is read with it).  A deeper store through state makes X untrusted.  `self.X` itself is
+#   RLoad unless some site assigns it an untrusted value.  For query_context.writer / a writer local the class is not known: the
+#   meet over all classes that have X.
+#   Rule R (aliases): the shape of a NAME is only that name's view.  A name that is MUTATED (method call, x[i] = v, del, +=) must
+#   see every object it may alias (binding from another name, from state, from an element, from a parameter: each alternative
+#   of c ? a : b / a or b is a site of its own) at exactly the shape that source promises (same trust skeleton); if its view lost
+#   a trusted position, or it is bound to the result of an inlined call, or to such a name, the mutation is translated to a
+#   never-safe statement (SAssign t RSrc; SSetItem t; reason in HeapFacts.json "flags").  Hence a store of an untrusted value
+#   through a name cannot invalidate what another name / the writer's state trusts.  A store into writer state from outside the
+#   classes (engine code: W.X.push(v), W.X = v, W.X[k] = v) must not lower ATTR_SHAPES (else never-safe); inside the classes the
+#   site is part of ATTR_SHAPES by construction.
+#   ENTRY contract: a write(..) parameter that is NOT named like a row (JavaScript SortedWriter.write(stable_entry)) has the
+#   declared shape ENTRY = S(A; A, FLAT) (key values .., a number, the row); every emit site whose argument has a trusted position
+#   must emit a value of at least that shape (else never-safe); see ASSUMED.
 #   rhs     y = x -> RVar;  x[:] x[a:b] list(x) tuple(x) sorted(x) x.slice() x.copy() Array.from(x) -> RCopy;  [..]+x+[..],
 #           x.concat(..) -> RConcat (always a new object);  displays, comprehensions, x.map/filter -> RFresh;  x[i], for t in x,
-#           a,b,t = x, x.pop() -> RCell x / RElem x by depth (bound only when the target is an LV name);  *.get_record()
-#           *.get_rhs() *.get_join_records() -> RSrc;  any other expression bound to an LV name -> RSrc in engine code, RLoad in
-#           a writer method when rooted at self/this or a local;  constants -> RFresh (a dummy non-source object).
+#           a,b,t = x, x.pop() -> RCell x / RElem x by ELEMENT TRUST (bound only when the target is an LV name);  x.f for an
+#           attribute f that no builtin container has -> RCell x (a field of a non-list object held by x);  *.get_record()
+#           *.get_rhs() *.get_join_records() -> RSrc;  any other (untracked) expression bound to an LV name -> RSrc in engine
+#           code; in a writer method, when rooted at self/this or a local: RLoad for self.X itself (see ATTR_SHAPES) and for a
+#           position with a tracked shape, otherwise RCell of an RLoad'ed temporary (anything);  constants -> RFresh.
 #   writer-owned state (any code) -> RLoad:  W.attr  or  W.attr[i]..[j]  (one attribute step, then index steps only; no call, no
 #           slice) bound to an LV name, where W is query_context.writer or a WRITER LOCAL: a non-LV local name whose EVERY binding
 #           in the function (closures, loop / handler / import targets, parameters included) is the plain statement
@@ -60,15 +91,22 @@
 #           add/set/update/delete(..) -> SSetItem x  (x may be an expression: x[i].append(..) mutates the cell / element).
 #   emit    query_context.writer.write(..), self.subwriter.write(..), this.subwriter.write(..) -> SEmit of the last argument
 #           (and of any other list-valued argument);  also p.write(..) for a RECEIVER PARAMETER p (calls rule).
-#   store   an LV object placed in a display, stored in an attribute / subscript (also as a key), or passed to a mutating
-#           method of another object -> SStore.  A CELL stored into a flat row (display of depth 1, row.append(cell),
-#           row[i] = cell) needs no statement: the cells of a row are never trusted; stored anywhere else -> SStore (rejected).
+#   store   a value with a TRACKED shape placed in a display, stored in an attribute / subscript (also as a key), or passed to a
+#           mutating method of another object -> SStore (it must be clean: that position may be trusted by a reader).  A value
+#           with shape A (a cell, a name bound to one, the result of untranslated / resolved code) needs NO statement when it
+#           goes (i) into a display (that position of the display has shape A), (ii) into a flat row (depth 1) or into a NAME
+#           whose shape has no trusted element and that passes rule R, (iii) into untracked state (an attribute, a container
+#           reached through an untracked expression): every reader of such a position gets RCell.  Into any other tracked
+#           container -> SStore (rejected for a cell).
 #   unknown an LV object (or an element / cell of one) passed to a function that is neither defined in the translated files nor
-#           in the read-only whitelist, or receiving an unknown method call -> SSetItem + SStore (accepted only for a clean
-#           object, never for a cell).
+#           in the read-only whitelist, or receiving a method call that is unknown but has the name of a builtin container
+#           method -> SSetItem + SStore (accepted only for a clean object, never for a cell).  A method that NO builtin
+#           container type has (x.strip(), x.increment(..)) does nothing to the receiver x (ASSUMED: list objects are builtin
+#           lists / arrays, the call raises on them); its arguments are arguments of an unknown call unless it is RESOLVED.
 #   read    comparisons, truth tests, len, isinstance, str, JSON.stringify, S.join(x), x.join/indexOf/findIndex/..., x.length,
-#           string formatting, csv_utils.*(..) (the CSV string helpers), methods of self.stream / this.stream / sys.stdout (I/O):
-#           no statement.
+#           string formatting (S.format(..) for an untracked S), csv_utils.*(..) (the CSV string helpers), methods of self.stream /
+#           this.stream / sys.stdout (I/O), methods of a string / regular expression / number LITERAL, a method with the name of a
+#           read-only builtin method (get, has, index, keys ..) on an untracked receiver: no statement.
 #   control if/else -> SIf; for/while -> SFor; raise/throw -> nothing (every statement may raise in the semantics);
 #           return/break/continue only in tail position (an `if c: jump` in the middle of a block moves the rest of the block
 #           into the branches that fall through); a return inside a loop is accepted when nothing with an effect follows the
@@ -78,9 +116,19 @@
 #           optional, then SIf(h1', SIf(h2', .. rest)): hi' is handler i - followed by `rest` when it can fall through - and
 #           everything is translated in the tail position of the block (a handler's return there is a return at the end of the
 #           function / loop body).  Every real run is a path: any part of the body, then either one handler (and, if it falls
-#           through, the rest) or the rest.  A return / break / continue inside the try BODY is still refused in that case.
+#           through, the rest) or the rest.  When the try body itself ENDS with `return e` (its only jump): SIf(the whole body with
+#           that return in tail position, [any part of the body with e evaluated for its effects; then the handler chain as
+#           above]).  Any other jump inside the try BODY is still refused in that case.  `if` / `try` statements that contain a
+#           jump on some path (not only at their end) take the rest of the block into the branches that fall through.
 #   calls   a function defined in the translated files (also self.m(..), and self.attr(..) when attr is only ever assigned
 #           methods of the class: one branch per candidate) is inlined with fresh variables; a recursive call is an unknown call.
+#           [new] C(..) for a class C of the translated files that defines __init__ / constructor: the constructor is inlined
+#           (what it keeps: store rule); the new object itself is untracked.
+#           RESOLVED methods (RESOLVED_METHODS = increment, get_final, parse: the aggregators and NumHandler): x.m(..) on an
+#           untracked or cell receiver is resolved BY NAME: one branch per class of the translated files that defines m, each
+#           inlined as a method of that class (self.X is that class's state, ATTR_SHAPES); what it returns has shape A.  A
+#           comprehension whose element contains such a call, or mentions an LV name it does not bind, is translated as the loop
+#           it is (generators bind like for statements; the elements of the result have shape A: no SStore).
 #           RECEIVER PARAMETER: when the argument of an inlined call is self.subwriter / this.subwriter (or a receiver parameter
 #           of the caller) and the callee binds the parameter p nowhere else (closures included), p stands for that receiver:
 #           p.write(..) -> SEmit, p.finish() -> nothing (finish_chain), as for self.subwriter itself.  Not for
@@ -97,16 +145,27 @@
 #           element mentions an LV name it does not bind itself.  (Targets of comprehensions take their DEPTH from the iterable.)
 #   A statement or expression outside these forms raises TranslateError naming file:line.
 #   NOT OF INTEREST (no statement): a statement in which no LV name occurs and that is not one of the forms above; bodies of
-#   lambdas / function expressions that mention no LV name of the enclosing function (refused if they do); constructors
-#   (__init__ / constructor are not translated: the writers' state is assumed to hold no source object when the query starts);
-#   set_header / get_warnings; the contents of UNTRACKED names.
+#   lambdas / function expressions that mention no LV name of the enclosing function (refused if they do); the constructors of
+#   the writers that exist when the query starts (their store sites ARE part of ATTR_SHAPES; the writers' state is assumed to
+#   hold no source object then); set_header / get_warnings; the contents of UNTRACKED names.
 #   ASSUMED: the only calls that return source objects are get_record / get_rhs / get_join_records; an unknown callee reaches
 #   list objects only through its arguments; query_context.writer / self.subwriter / this.subwriter are the only ways to the
 #   next writer.  For the writer-owned-state rule: query_context.writer always is a writer of the chain (checked for the
-#   translated assignments, assumed for the untranslated set-up code); calling a WRITER_CLASSES name constructs that class and,
-#   like every untranslated constructor, keeps only fresh objects and its arguments; values that reach a writer's state through
-#   UNTRACKED names are cell values and are not followed (the same trust a writer method already gives to self.attr[i]).  For
-#   the engine-owned-list rule: attributes are bound only by the translated files (no dynamic attribute store elsewhere).
+#   translated assignments, assumed for the untranslated set-up code); calling a WRITER_CLASSES name constructs that class.
+#   For the engine-owned-list rule and ATTR_SHAPES: the attributes of the writer / aggregator objects are stored to only by the
+#   methods of their classes and by translated engine code (checked there); no dynamic attribute store elsewhere.
+#   ENTRY contract: a writer whose write parameter is an entry (JavaScript SortedWriter) HEADS the chain and is handed only the
+#   entries the engine builds for it (the set-up code installs it exactly when query_context.sort_key_expression is set, and
+#   select_simple emits entries exactly then); the generated theorem quantifies over arbitrary chains, it is meaningful for such a
+#   writer only in that position.  What IS checked: every emitted object with a trusted position has at least the ENTRY shape, and
+#   inside the writer every position other than the last (the row) is read as a cell.
+#   List objects are builtin lists / arrays (Heap.v: field values are atoms, list-valued cells are list objects): a method or
+#   attribute that no builtin container type has raises on them; a method with the name of a read-only builtin method, or of a
+#   string / regular expression / number literal, does not change its arguments.
+#   UNTRACKED values: a value held only by names that are never used in a list position and never handed to untranslated code
+#   through a local (the arguments of user functions in query expressions, module constants) is not mutated in place by the
+#   untranslated code that receives it.  The engine's own paths that hand cell values to untranslated callees were enumerated
+#   (increment / get_final / parse and the token / aggregator constructors): those callees are now translated.
 import ast
 import importlib
 import json
@@ -146,6 +205,7 @@ IO_RECEIVERS = {'self.stream', 'this.stream', 'sys.stdout', 'sys.stderr', 'conso
 ROW_NAMES = INTEREST                     # a write(..) parameter with one of these names is a flat row (depth 1)
 SRC_METHODS = {'get_record', 'get_rhs', 'get_join_records'}
 EMIT_RECEIVERS = {'query_context.writer', 'self.subwriter', 'this.subwriter'}
+RESOLVED_METHODS = {'increment', 'get_final', 'parse'}   # methods of engine objects (aggregators, NumHandler) resolved by name, see calls rule
 WRITER_CLASSES = ['TopWriter', 'UniqWriter', 'UniqCountWriter', 'SortedWriter', 'AggregateWriter', 'TableWriter', 'CSVWriter']
 
 # (name, python query, javascript query, needs join table)
@@ -298,6 +358,22 @@ class Source:
                     bad.add(n.attr)
         self._owned = set() if dynamic else good - bad
         return self._owned
+
+    def method_names(self):
+        """names of the methods defined by the classes of the translated files (JavaScript classes that do not parse are skipped)"""
+        if getattr(self, '_methods', None) is None:
+            for name in [n for n, it in self.js_items.items() if it[0] == 'class']:
+                try:
+                    self._parse_js(name)
+                except TranslateError:
+                    pass
+            self._methods = {m.name for c, _f in self.classes.values() for m in c.body if isinstance(m, (ast.FunctionDef, ast.AsyncFunctionDef))}
+        return self._methods
+
+    def methods_named(self, m):
+        """[(method def, class def, file)] for every class of the translated files that defines a method m"""
+        self.method_names()
+        return [(d, c, f) for c, f in self.classes.values() for d in c.body if isinstance(d, (ast.FunctionDef, ast.AsyncFunctionDef)) and d.name == m]
 
     def function(self, name):
         if name in self.js_items and self.js_items[name][0] == 'function':
@@ -664,6 +740,8 @@ def compute_lv(body, init, aliases=()):
                 lv.add(f.value.id)
             if isinstance(f, ast.Name) and f.id in LISTY_FUNCS:
                 lv.update(a.id for a in n.args if isinstance(a, ast.Name))
+            if isinstance(f, ast.Attribute) and f.attr in RESOLVED_METHODS:
+                lv.update(a.id for a in n.args if isinstance(a, ast.Name))
             if is_emit_call(n, aliases) and n.args and isinstance(n.args[-1], ast.Name):
                 lv.add(n.args[-1].id)
         elif isinstance(n, ast.For):
@@ -772,6 +850,8 @@ def depth_of(e, lv, env):
                 return 1
             if f.attr in SRC_METHODS:
                 return 3
+            if f.attr in RESOLVED_METHODS:
+                return 0                # what such a method returns is never trusted (shape A): a cell value
             if expr_text(f) == 'Array.from' and len(e.args) == 1:
                 return max(1, depth_of(e.args[0], lv, env))
             if f.attr in COPY_METHODS:
@@ -844,6 +924,570 @@ def compute_depth(body, lv, init):
     return env
 
 
+# ---------------------------------------------------------------------------------------------------- shapes (element trust)
+#
+# SHAPE of a value (a LOWER bound: what is KNOWN about it at every binding site / store site; see THE RULES, "element trust"):
+#   A                 an untrusted value: an atom, a cell, anything that came through an untracked name or unknown code.  Used in a
+#                     list position it is a CELL (RCell, never clean); as a container its elements are untrusted.
+#   ('S', pre, suf)   a TRACKED list object: any number of elements of shape pre, then len(suf) fixed last positions.
+#                     pre = TOP: no other elements (an exact tuple / display).  S(A, ()) is a flat row.
+#   ('M', k, v)       a TRACKED map object (dict / Map): keys of shape k, values of shape v.
+#   TOP               nothing known yet / an empty container: the identity of meet.
+# An element position is TRUSTED (read as RElem: an owned object that was SStore'd when it was put there) only when its shape is
+# S or M, i.e. when at EVERY store site that position syntactically holds a tracked list object; otherwise it is read as RCell.
+A, TOP = 'A', 'TOP'
+FLAGS = []                  # reasons of the never-safe statements emitted by Tr.flag (reported in HeapFacts.json and on stderr)
+LANG = ['py']               # language being translated (iteration of a map yields keys in Python, [key, value] in JavaScript)
+RET_SHAPES = {}             # (class, method) -> meet of the shapes of the values the method returns (computed with ATTR_SHAPES)
+ATTR_SHAPES = {}            # attribute name -> shape of what the writer classes keep there (all store sites, see attr_shapes)
+EMPTY_CTORS = {'list', 'dict', 'set', 'tuple', 'frozenset', 'OrderedDict', 'defaultdict', 'deque', 'Map', 'Set', 'Array', 'Object', 'WeakMap'}
+PAIR_WRAPPERS = {'enumerate'}
+SIZE_MUTATORS = {'append', 'push', 'add', 'appendleft', 'unshift', 'insert', 'extend', 'update', 'pop', 'shift', 'remove', 'clear', 'splice',
+                 'popleft', 'popitem', 'discard', 'delete', 'sort', 'reverse', 'fill', 'copyWithin'}
+
+
+def S(pre, suf=()):
+    return ('S', pre, tuple(suf))
+
+
+FLAT = S(A)
+ENTRY = S(A, (A, FLAT))     # the JavaScript sort entry  sort_key.concat([NR, out_fields]):  key values .., a number, the row
+SRC3 = S(S(FLAT))           # get_rhs(..): a list of tuples whose components are rows (all of them source objects anyway)
+
+
+def tracked(s):
+    return isinstance(s, tuple)
+
+
+def meet(s, t):
+    if s == TOP:
+        return t
+    if t == TOP:
+        return s
+    if s == A or t == A or s[0] != t[0]:
+        return A
+    if s[0] == 'M':
+        return ('M', meet(s[1], t[1]), meet(s[2], t[2]))
+    f1, f2 = s[2], t[2]
+    k = min(len(f1), len(f2))
+    pre = meet(s[1], t[1])
+    for x in list(f1[:len(f1) - k]) + list(f2[:len(f2) - k]):       # fixed in one view, somewhere in the prefix of the other
+        pre = meet(pre, x)
+    return ('S', pre, tuple(meet(a, b) for a, b in zip(f1[len(f1) - k:], f2[len(f2) - k:])))
+
+
+def meet_all(shapes):
+    r = TOP
+    for x in shapes:
+        r = meet(r, x)
+    return r
+
+
+def elem(s, idx=('any',)):
+    """shape of the element of a value of shape s at index kind idx: ('const', i) | ('last', k) | ('any',)"""
+    if not tracked(s):
+        return s                    # A stays A; TOP (nothing known yet, or nothing there) stays TOP: not trusted either
+    if s[0] == 'M':
+        return s[2]
+    pre, suf = s[1], s[2]
+    n = len(suf)
+    if idx[0] == 'last' and idx[1] <= n:
+        return suf[n - idx[1]]
+    if idx[0] == 'const' and pre == TOP and idx[1] < n:
+        return suf[idx[1]]
+    return meet_all([pre] + list(suf))
+
+
+def homog(s):
+    """the same elements without fixed positions (a copy that may be reordered / cut)"""
+    if s == TOP:
+        return TOP                  # nothing known yet (optimistic start of a fixpoint) / nothing there
+    if not tracked(s):
+        return FLAT
+    if s[0] == 'M':
+        return S(meet(s[1], s[2]))
+    return S(meet_all([s[1]] + list(s[2])))
+
+
+def norm(s):
+    """trust skeleton: TOP positions read as A; a container without any trusted position is FLAT"""
+    if s == TOP or not tracked(s):
+        return A
+    if s[0] == 'M':
+        k, v = norm(s[1]), norm(s[2])
+        return ('M', k, v)
+    pre = norm(s[1])
+    suf = tuple(norm(x) for x in s[2])
+    if not tracked(pre) and not any(tracked(x) for x in suf):
+        return FLAT
+    return ('S', pre, suf)
+
+
+def has_trust(s):
+    """some element position of s is trusted"""
+    n = norm(s)
+    return tracked(n) and n != FLAT and not (n[0] == 'M' and not tracked(n[1]) and not tracked(n[2]))
+
+
+def index_kind(base, sl):
+    """('const', i) | ('last', k) | ('any',) for the subscript base[sl]"""
+    if isinstance(sl, ast.Constant) and isinstance(sl.value, int) and not isinstance(sl.value, bool):
+        if sl.value >= 0:
+            return ('const', sl.value)
+        return ('last', -sl.value) if LANG[0] == 'py' else ('any',)
+    if isinstance(sl, ast.UnaryOp) and isinstance(sl.op, ast.USub) and isinstance(sl.operand, ast.Constant) and isinstance(sl.operand.value, int) \
+            and not isinstance(sl.operand.value, bool) and sl.operand.value > 0 and LANG[0] == 'py':
+        return ('last', sl.operand.value)
+    if isinstance(sl, ast.BinOp) and (isinstance(sl.op, ast.Sub) or getattr(sl, 'js_op', None) == '-') and isinstance(sl.right, ast.Constant) \
+            and isinstance(sl.right.value, int) and not isinstance(sl.right.value, bool) and sl.right.value > 0 and expr_text(base) is not None:
+        l = sl.left
+        if isinstance(l, ast.Attribute) and l.attr == 'length' and expr_text(l.value) == expr_text(base):
+            return ('last', sl.right.value)
+        if isinstance(l, ast.Call) and isinstance(l.func, ast.Name) and l.func.id == 'len' and len(l.args) == 1 and expr_text(l.args[0]) == expr_text(base):
+            return ('last', sl.right.value)
+    return ('any',)
+
+
+class IterElem(ast.AST):
+    """synthetic expression: an element produced by iterating `value` (wrappers enumerate / items / entries .. still on it)"""
+    _fields = ('value',)
+
+
+def concat_shape(a, b):
+    if not tracked(a) or a[0] != 'S':
+        a = FLAT
+    if not tracked(b) or b[0] != 'S':
+        b = FLAT
+    if a[1] == TOP and b[1] == TOP:
+        return S(TOP, a[2] + b[2])
+    return S(meet_all([a[1]] + list(a[2]) + [b[1]]), b[2])
+
+
+def cap(s, d=5):
+    """shapes nested deeper than d are not followed (keeps the fixpoint finite: x = [x])"""
+    if not tracked(s):
+        return s
+    if d == 0:
+        return A
+    if s[0] == 'M':
+        return ('M', cap(s[1], d - 1), cap(s[2], d - 1))
+    return ('S', cap(s[1], d - 1), tuple(cap(x, d - 1) for x in s[2]))
+
+
+def is_fresh_expr(v, lv):
+    """v evaluates to a NEW object (display, copy, concatenation ...): no other name can see it yet"""
+    if v is None or isinstance(v, (ast.Constant, ast.List, ast.Tuple, ast.Set, ast.Dict, ast.ListComp, ast.SetComp, ast.GeneratorExp, ast.DictComp,
+                                   ast.BinOp, ast.Compare, ast.UnaryOp, ast.JoinedStr, ast.Lambda)):
+        return True
+    if isinstance(v, ast.Subscript):
+        return isinstance(v.slice, ast.Slice)
+    if isinstance(v, ast.Call):
+        f = v.func
+        if isinstance(f, ast.Name):
+            return f.id in COPY_FUNCS or f.id in EMPTY_CTORS
+        if isinstance(f, ast.Attribute):
+            return f.attr in COPY_METHODS or f.attr in FRESH_METHODS or f.attr == 'concat' or expr_text(f) == 'Array.from'
+    return False
+
+
+def alternatives(v):
+    if isinstance(v, ast.IfExp):
+        return alternatives(v.body) + alternatives(v.orelse)
+    if isinstance(v, ast.BoolOp):
+        return [y for x in v.values for y in alternatives(x)]
+    if isinstance(v, ast.Await):
+        return alternatives(v.value)
+    return [v]
+
+
+def apply_index_stores(b, idx):
+    for k, v, ik in idx:
+        if b == TOP:
+            b = ('M', k, v)
+        elif not tracked(b):
+            pass
+        elif b[0] == 'M':
+            b = ('M', meet(b[1], k), meet(b[2], v))
+        else:
+            pre, suf = b[1], list(b[2])
+            n = len(suf)
+            if ik[0] == 'last' and ik[1] <= n:
+                suf[n - ik[1]] = meet(suf[n - ik[1]], v)
+                b = ('S', pre, tuple(suf))
+            elif ik[0] == 'const' and pre == TOP and ik[1] < n:
+                suf[ik[1]] = meet(suf[ik[1]], v)
+                b = ('S', pre, tuple(suf))
+            else:
+                b = meet(b, S(v))
+    return b
+
+
+def mutator_site(sh, call):
+    """what the mutating method call x.m(args) says about the shape of x: ('base', shape) | ('idx', k, v, kind)"""
+    m, args = call.func.attr, call.args
+    if m in ('set', 'setdefault') and len(args) >= 2:
+        return ('idx', sh.of(args[0]), sh.of(args[1]), ('any',))
+    if m in ('extend', 'update') and len(args) == 1:
+        a = sh.of(args[0])
+        return ('base', a if (tracked(a) and a[0] == 'M') else S(sh.iter_elem(args[0])))
+    if m in ('sort', 'reverse', 'pop', 'remove', 'clear', 'shift', 'delete', 'discard', 'popitem', 'popleft', 'copyWithin'):
+        return ('base', S(TOP))         # nothing is stored, positions may move
+    if m == 'insert' and len(args) == 2:
+        args = args[1:]
+    elif m == 'splice':
+        args = args[2:]
+    return ('base', S(meet_all([elem(sh.of(a.value)) if isinstance(a, ast.Starred) else sh.of(a) for a in args])))
+
+
+def collect_sites(body, lv, sh, base, idx, extra_target=None):
+    """binding sites and store sites of the LV names below body: base[name] += (shape, is_alias, node), idx[name] += (k, v, kind).
+    extra_target(target_expr) -> key or None lets the caller collect sites of other targets (writer attributes) under that key."""
+    def key_of(t):
+        if isinstance(t, ast.Name):
+            return t.id if t.id in lv else None
+        return extra_target(t) if extra_target else None
+
+    def add_base(k, shape, alias, node):
+        if k is not None:
+            base.setdefault(k, []).append((cap(shape), alias, node))
+
+    def bind(t, shape, alias, node):
+        if isinstance(t, (ast.Tuple, ast.List)):
+            starred = False
+            for i, x in enumerate(t.elts):
+                if isinstance(x, ast.Starred):
+                    starred = True
+                    bind(x.value, homog(shape) if tracked(shape) else shape, True, node)
+                else:
+                    bind(x, elem(shape, ('any',) if starred else ('const', i)), True, node)
+            return
+        if isinstance(t, ast.Subscript):
+            k = key_of(t.value)
+            if k is not None:
+                if isinstance(t.slice, ast.Slice):
+                    base.setdefault(k, []).append((cap(S(elem(shape))), False, node))
+                else:
+                    idx.setdefault(k, []).append((sh.of(t.slice), cap(shape), index_kind(t.value, t.slice)))
+            return
+        add_base(key_of(t), shape, alias, node)
+
+    for n in walk_shallow(body):
+        if isinstance(n, ast.Assign):
+            if len(n.targets) == 1 and isinstance(n.targets[0], (ast.Tuple, ast.List)) and isinstance(n.value, (ast.Tuple, ast.List)) \
+                    and len(n.targets[0].elts) == len(n.value.elts) and not any(isinstance(x, ast.Starred) for x in n.targets[0].elts + n.value.elts):
+                for t, v in zip(n.targets[0].elts, n.value.elts):
+                    bind(t, sh.of(v), not is_fresh_expr(v, lv), n)
+            else:
+                for v in alternatives(n.value):         # each alternative is a binding site of its own
+                    for t in n.targets:
+                        bind(t, sh.of(v), not is_fresh_expr(v, lv) or len(n.targets) > 1, n)
+        elif isinstance(n, ast.AnnAssign) and n.value is not None:
+            for v in alternatives(n.value):
+                bind(n.target, sh.of(v), not is_fresh_expr(v, lv), n)
+        elif isinstance(n, ast.AugAssign):
+            t = n.target
+            if isinstance(t, ast.Subscript):
+                k = key_of(t.value)
+                if k is not None and not isinstance(t.slice, ast.Slice):
+                    idx.setdefault(k, []).append((sh.of(t.slice), A, index_kind(t.value, t.slice)))
+            else:
+                add_base(key_of(t), S(sh.iter_elem(n.value)), False, n)
+        elif isinstance(n, (ast.For, ast.AsyncFor, ast.comprehension)):
+            bind(n.target, sh.iter_elem(n.iter), True, n)
+        elif isinstance(n, ast.Call) and isinstance(n.func, ast.Attribute) and n.func.attr in MUTATORS:
+            k = key_of(n.func.value)
+            if k is not None:
+                site = mutator_site(sh, n)
+                if site[0] == 'idx':
+                    idx.setdefault(k, []).append((site[1], cap(site[2]), site[3]))
+                else:
+                    base.setdefault(k, []).append((cap(site[1]), False, n))
+        elif isinstance(n, ast.Delete):
+            for t in n.targets:
+                if isinstance(t, ast.Subscript):
+                    add_base(key_of(t.value), S(TOP), False, n)
+
+
+def compute_shape(body, lv, init, state):
+    """flow-insensitive greatest fixpoint of the shapes of the LV names of one function (init: parameter -> shape).
+    -> (env, lossy): lossy = names that alias an object whose source promises a trusted position that this name's view lost"""
+    env = {n: TOP for n in lv}
+    base = idx = None
+    for _round in range(40):
+        sh = Shaper(lv, env, state)
+        base, idx = {}, {}
+        for n, s0 in init.items():
+            if n in lv:
+                base.setdefault(n, []).append((cap(s0), True, None))
+        collect_sites(body, lv, sh, base, idx)
+        new = {}
+        for n in lv:
+            new[n] = apply_index_stores(meet_all([x[0] for x in base.get(n, [])]), idx.get(n, []))
+            if n not in base and n not in idx:
+                new[n] = A                      # never bound here: a free variable, nothing is known
+        if new == env:
+            break
+        env = new
+    lossy = set()
+    for n in lv:
+        for shape, alias, _node in base.get(n, []):
+            if alias and has_trust(shape) and norm(shape) != norm(env[n]):
+                lossy.add(n)
+    return env, lossy
+
+
+def is_self(e):
+    return isinstance(e, ast.Name) and e.id in ('self', 'this')
+
+
+def state_attr_root(t, state):
+    """t = <state>.X followed by further subscript / attribute / call steps -> X (a store THROUGH an element of the attribute)"""
+    while isinstance(t, (ast.Subscript, ast.Attribute, ast.Call)):
+        if isinstance(t, ast.Attribute) and state(t.value):
+            return t.attr
+        t = t.func if isinstance(t, ast.Call) else t.value
+    return None
+
+
+def is_store_node(node):
+    return isinstance(node, (ast.Call, ast.Delete, ast.AugAssign))
+
+
+def attr_shapes(source):
+    """ATTR_SHAPES: for every attribute name X that a method of a writer class stores to (self.X = v, self.X.append(v),
+    self.X[k] = v, self.X.set(k, v), also through a local alias  name = self.X), the meet of the shapes at ALL those sites, in
+    ALL methods (constructors included) of ALL writer classes; greatest fixpoint (a method may store what it loaded).
+    A store through an element (self.X[k].append(v)) makes X untrusted; a method that mutates a name whose view lost a trusted
+    position makes every attribute untrusted."""
+    classes = [source.klass(c) for c in WRITER_CLASSES]
+    classes = [c for c in classes if c is not None]
+    for m in sorted(RESOLVED_METHODS):
+        for _d, c, f in source.methods_named(m):
+            if not any(c is x[0] for x in classes):
+                classes.append((c, f))
+    ATTR_SHAPES.clear()
+    methods = []
+    for cdef, _f in classes:
+        for m in cdef.body:
+            if isinstance(m, (ast.FunctionDef, ast.AsyncFunctionDef)):
+                params, pnames = [], []
+                for a in m.args.args:
+                    pat = getattr(a, 'js_pattern', None)
+                    params.append(a.arg)
+                    pnames.extend(target_names(pat) if pat is not None and not isinstance(pat, ast.Name) else [a.arg])
+                if params and params[0] == 'self':
+                    params, pnames = params[1:], [n for n in pnames if n != 'self']
+                shapes = {}
+                for n in pnames:
+                    shapes[n] = FLAT if n in ROW_NAMES else A
+                if m.name == 'write' and params and params[-1] not in ROW_NAMES:
+                    shapes[params[-1]] = ENTRY
+                init = {params[-1]} if (m.name == 'write' and params) else set()
+                lv = compute_lv(m.body, init | (INTEREST & set(pnames)))
+                methods.append((cdef.name, m, lv, shapes))
+    RET_SHAPES.clear()
+    RET_SHAPES.update({(cname, m.name): TOP for cname, m, _lv, _sh in methods})      # optimistic start of the greatest fixpoint
+    for _round in range(40):
+        base, idx, deep, poison = {}, {}, set(), set()
+        rets = {}
+        for cname, m, lv, shapes in methods:
+            state = (lambda e, cname=cname: cname if is_self(e) else None)
+            env, lossy = compute_shape(m.body, lv, shapes, state)
+            sh = Shaper(lv, env, state)
+            b, ix = {}, {}
+            rv = [sh.of(n.value) for n in walk_shallow(m.body) if isinstance(n, ast.Return)]
+            rets[(cname, m.name)] = cap(meet_all(rv)) if rv else A
+
+            def extra(t):
+                if isinstance(t, ast.Attribute) and is_self(t.value):
+                    return ('attr', t.attr)
+                if isinstance(t, ast.Subscript) and not isinstance(t.slice, ast.Slice) and isinstance(t.value, ast.Attribute) and is_self(t.value.value):
+                    return ('sub', t.value.attr)        # self.X[k].append(v): the value kept at X[k] is a list that receives v
+                x = state_attr_root(t, is_self)
+                return ('deep', x) if x is not None else None
+            collect_sites(m.body, lv, sh, b, ix, extra)
+            alias = {}
+            for n in walk_shallow(m.body):
+                if isinstance(n, ast.Assign) and len(n.targets) == 1 and isinstance(n.targets[0], ast.Name) and n.targets[0].id in lv \
+                        and isinstance(n.value, ast.Attribute) and is_self(n.value.value):
+                    alias.setdefault(n.targets[0].id, set()).add(n.value.attr)
+            for k in set(b) | set(ix):
+                if isinstance(k, tuple) and k[0] == 'attr':
+                    base.setdefault((cname, k[1]), []).extend(x[0] for x in b.get(k, []))
+                    idx.setdefault((cname, k[1]), []).extend(ix.get(k, []))
+                elif isinstance(k, tuple) and k[0] == 'sub' and not ix.get(k):
+                    idx.setdefault((cname, k[1]), []).extend((A, x[0], ('any',)) for x in b.get(k, []))
+                elif isinstance(k, tuple):
+                    deep.add((cname, k[1]))
+                else:
+                    stores = [x[0] for x in b.get(k, []) if is_store_node(x[2])]
+                    if (stores or ix.get(k)) and k in lossy:
+                        poison.add(cname)
+                    for x in alias.get(k, ()):
+                        base.setdefault((cname, x), []).extend(stores)
+                        idx.setdefault((cname, x), []).extend(ix.get(k, []))
+        new = {}
+        for x in set(base) | set(idx) | deep:
+            new[x] = A if (x[0] in poison or x in deep) else apply_index_stores(meet_all(base.get(x, [])), idx.get(x, []))
+        if new == ATTR_SHAPES and rets == RET_SHAPES:
+            break
+        ATTR_SHAPES.clear()
+        ATTR_SHAPES.update(new)
+        RET_SHAPES.clear()
+        RET_SHAPES.update(rets)
+    return ATTR_SHAPES
+
+
+def attr_shape(key, attr, default):
+    """shape kept in attribute attr of class key; key '*': of some writer of the chain (any class that has the attribute)"""
+    if key == '*':
+        found = [v for (c, a), v in ATTR_SHAPES.items() if a == attr]
+        return meet_all(found) if found else default
+    return ATTR_SHAPES.get((key, attr), default)
+
+
+def _container_methods():
+    """every method name of the builtin CONTAINER types of both languages (a cell that is a list object has no other method)"""
+    import collections
+    names = set()
+    for ty in (list, dict, set, frozenset, tuple, collections.OrderedDict, collections.defaultdict, collections.deque):
+        names.update(n for n in dir(ty) if not n.startswith('__'))
+    names.update('''at concat copyWithin entries every fill filter find findIndex findLast findLastIndex flat flatMap forEach includes indexOf join keys
+        lastIndexOf map pop push reduce reduceRight reverse shift slice some sort splice toLocaleString toReversed toSorted toSpliced toString unshift
+        values with length size get set has delete clear add valueOf hasOwnProperty isPrototypeOf propertyIsEnumerable'''.split())
+    return names | MUTATORS | COPY_METHODS | FRESH_METHODS | ELEM_METHODS | ITER_METHODS | (READ_METHODS - {'startswith', 'endswith'})
+
+
+def _builtin_methods():
+    import collections
+    names = set()
+    for ty in (list, dict, set, frozenset, tuple, str, bytes, bytearray, int, float, collections.OrderedDict, collections.defaultdict, collections.deque):
+        names.update(n for n in dir(ty) if not n.startswith('__'))
+    names.update('''at concat copyWithin entries every fill filter find findIndex findLast findLastIndex flat flatMap forEach includes indexOf join keys
+        lastIndexOf map pop push reduce reduceRight reverse shift slice some sort splice toLocaleString toReversed toSorted toSpliced toString unshift
+        values with length size get set has delete clear add charAt charCodeAt codePointAt endsWith localeCompare match matchAll normalize padEnd padStart
+        repeat replace replaceAll search split startsWith substring substr toLowerCase toUpperCase trim trimEnd trimStart valueOf hasOwnProperty
+        isPrototypeOf propertyIsEnumerable toFixed toPrecision toExponential then catch finally next return throw call apply bind'''.split())
+    return names | MUTATORS | COPY_METHODS | FRESH_METHODS | READ_METHODS | ELEM_METHODS | ITER_METHODS
+
+
+BUILTIN_METHODS = _builtin_methods()
+CONTAINER_METHODS = _container_methods()
+
+
+class Shaper:
+    """shape_of for one function: lv names, their shapes (env), and state(e) -> True when attributes of e are writer state
+    (self / this in a writer method, query_context.writer or a writer local)"""
+
+    def __init__(self, lv, env, state):
+        self.lv, self.env, self.state = lv, env, state
+
+    def iter_elem(self, e):
+        if isinstance(e, ast.Call) and isinstance(e.func, ast.Name) and e.args:
+            f = e.func.id
+            if f == 'enumerate':
+                return S(TOP, (A, self.iter_elem(e.args[0])))
+            if f in ('reversed', 'iter', 'sorted', 'list', 'tuple'):
+                return self.iter_elem(e.args[0])
+            if f == 'iteritems6':
+                s = self.of(e.args[0])
+                return S(TOP, (s[1], s[2])) if tracked(s) and s[0] == 'M' else A
+            if f in ITER_WRAPPERS:
+                return A
+        if isinstance(e, ast.Call) and isinstance(e.func, ast.Attribute) and e.func.attr in ITER_METHODS and not e.args:
+            s = self.of(e.func.value)
+            m = e.func.attr
+            if tracked(s) and s[0] == 'M':
+                return {'keys': s[1], 'values': s[2]}.get(m, S(TOP, (s[1], s[2])))
+            if tracked(s) and m in ('entries', 'items'):
+                return S(TOP, (A, elem(s)))
+            if tracked(s) and m == 'values':
+                return elem(s)
+            return A
+        s = self.of(e)
+        if tracked(s) and s[0] == 'M':
+            return s[1] if LANG[0] == 'py' else S(TOP, (s[1], s[2]))
+        return elem(s)
+
+    def of(self, e):
+        if e is None or isinstance(e, ast.Constant):
+            return A
+        if isinstance(e, IterElem):
+            return self.iter_elem(e.value)
+        if isinstance(e, ast.Name):
+            return self.env.get(e.id, A) if e.id in self.lv else A
+        if isinstance(e, (ast.List, ast.Tuple, ast.Set)):
+            if any(isinstance(x, ast.Starred) for x in e.elts):
+                return S(meet_all([elem(self.of(x.value)) if isinstance(x, ast.Starred) else self.of(x) for x in e.elts]))
+            return S(TOP, [self.of(x) for x in e.elts])
+        if isinstance(e, ast.Dict):
+            if not e.keys:
+                return TOP
+            return ('M', meet_all([self.of(k) for k in e.keys if k is not None] or [A]), meet_all([self.of(v) for v in e.values]))
+        if isinstance(e, (ast.ListComp, ast.SetComp, ast.GeneratorExp)):
+            return FLAT
+        if isinstance(e, ast.Subscript):
+            b = self.of(e.value)
+            if isinstance(e.slice, ast.Slice):
+                sl = e.slice
+                return b if (sl.lower is None and sl.upper is None and sl.step is None and tracked(b)) else homog(b)
+            return elem(b, index_kind(e.value, e.slice))
+        if isinstance(e, ast.Starred):
+            return elem(self.of(e.value))
+        if isinstance(e, ast.BinOp):
+            if isinstance(e.op, ast.Add) and listy(e, self.lv):
+                r = None
+                for x in flatten_add(e):
+                    sx = self.of(x)
+                    r = sx if r is None else concat_shape(r, sx)
+                return r if tracked(r) else FLAT
+            return FLAT if listy(e, self.lv) else A
+        if isinstance(e, ast.IfExp):
+            return meet(self.of(e.body), self.of(e.orelse))
+        if isinstance(e, ast.BoolOp):
+            return meet_all([self.of(x) for x in e.values])
+        if isinstance(e, ast.Await):
+            return self.of(e.value)
+        if isinstance(e, ast.Attribute):
+            key = self.state(e.value)
+            if key:
+                return attr_shape(key, e.attr, A)
+            return A
+        if isinstance(e, ast.Call):
+            f = e.func
+            if isinstance(f, ast.Name):
+                if f.id in EMPTY_CTORS and (not e.args or f.id == 'defaultdict'):
+                    return TOP
+                if f.id in COPY_FUNCS and len(e.args) == 1:
+                    return S(self.iter_elem(e.args[0]))
+                return A
+            if isinstance(f, ast.Attribute):
+                m = f.attr
+                if m == 'get_record':
+                    return FLAT
+                if m in SRC_METHODS:
+                    return SRC3
+                if expr_text(f) == 'Array.from' and len(e.args) == 1:
+                    return S(self.iter_elem(e.args[0]))
+                if m in COPY_METHODS:
+                    b = self.of(f.value)
+                    return b if (not e.args and tracked(b)) else homog(b)
+                if m == 'concat':
+                    r = self.of(f.value)
+                    for a in e.args:
+                        r = concat_shape(r, self.of(a))
+                    return r if tracked(r) else FLAT
+                if m in FRESH_METHODS:
+                    return FLAT
+                if m in ELEM_METHODS:
+                    return elem(self.of(f.value))
+                key = self.state(f.value) if is_self(f.value) else None
+                if key and key != '*':
+                    return RET_SHAPES.get((key, m), A)      # a method of the same class: what it returns (every return statement)
+            return A
+        return A
+
+
 class Scope:
     def __init__(self, prefix, lv, locals_, ctx, cls, fname, label):
         self.prefix = prefix        # qualifies variable names of this function instance
@@ -859,6 +1503,9 @@ class Scope:
         self.returned_in_loop = False
         self.wlocals = set()        # locals that only ever hold a writer object (rule "writer-owned state")
         self.emit_alias = set()     # parameters that stand for self.subwriter / this.subwriter (rule "receiver parameter")
+        self.shape = {}             # LV name -> shape (lower bound, see "shapes")
+        self.lossy = set()          # LV names whose view lost a trusted position of an object they alias: must not be mutated
+        self.opaque = set()         # LV names bound to the result of an inlined call: must not be mutated
         self.owned_alias = set()    # LV names that only ever name an engine-owned list and never read its elements
         self.lazy = {}              # parameter -> LazyArg: a generator expression argument, evaluated by the loops over it
 
@@ -874,6 +1521,8 @@ def ends_with_jump(stmts):
         return True
     if isinstance(s, ast.If):
         return ends_with_jump(s.body) and ends_with_jump(s.orelse)
+    if isinstance(s, ast.Try) and not s.orelse and not s.finalbody:
+        return ends_with_jump(s.body) and all(ends_with_jump(h.body) or always_raises(h.body) for h in s.handlers)
     return False
 
 
@@ -882,6 +1531,20 @@ def may_jump_at_tail(s):
         return True
     if isinstance(s, ast.If):
         return bool((s.body and may_jump_at_tail(s.body[-1])) or (s.orelse and may_jump_at_tail(s.orelse[-1])))
+    if isinstance(s, ast.Try) and not s.orelse and not s.finalbody:
+        return bool((s.body and may_jump_at_tail(s.body[-1])) or any(h.body and may_jump_at_tail(h.body[-1]) for h in s.handlers))
+    return False
+
+
+def has_jump(stmts):
+    """some path through these statements (not entering loops or nested definitions) reaches a return / break / continue"""
+    for s in stmts:
+        if isinstance(s, JUMPS):
+            return True
+        if isinstance(s, ast.If) and (has_jump(s.body) or has_jump(s.orelse)):
+            return True
+        if isinstance(s, ast.Try) and (has_jump(s.body) or any(has_jump(h.body) for h in s.handlers) or has_jump(s.orelse) or has_jump(s.finalbody)):
+            return True
     return False
 
 
@@ -908,6 +1571,7 @@ class Tr:
         self.ninline = 0
         self.gen_label = gen_label
         self.gen_lines = gen_lines
+        self.flags = []             # reasons of the never-safe statements emitted by flag()
 
     # -- diagnostics
     def where(self, node):
@@ -943,15 +1607,46 @@ class Tr:
     def depth(self, e):
         return depth_of(e, self.scope.lv, self.scope.depth)
 
+    def shape(self, e):
+        sc = self.scope
+        return Shaper(sc.lv, sc.shape, self.state_pred(sc)).of(e)
+
+    def flag(self, node, why):
+        """a construct that could invalidate a trusted position: a statement that is never safe (a source object is mutated)"""
+        t = self.prog.tmp('flag')
+        self.emit('assign', t, ('src',))
+        self.emit('setitem', t)
+        self.flags.append('%s: %s' % (self.where(node), why))
+        FLAGS.append('%s: %s: %s' % (self.prog.name, self.where(node), why))
+
+    def check_state_store(self, target, site, node):
+        """a store into the untracked container `target` (writer state, or an element of it): it must not lower a position
+        that some reader trusts (inside the writer classes the site is part of ATTR_SHAPES, so this holds by construction)"""
+        cur = self.shape(target)
+        if not has_trust(cur):
+            return
+        new = apply_index_stores(cur, [site[1:]]) if site[0] == 'idx' else meet(cur, site[1])
+        if norm(new) != norm(cur):
+            self.flag(node, 'a store into writer state puts an untrusted value at a trusted position')
+
     def unknown_rhs(self, e):
-        """rhs for an expression that is not list-valued by form, bound to an LV name"""
+        """rhs for an expression that is not list-valued by form (an untracked expression), bound to an LV name"""
+        root = False
         if self.scope.ctx == 'writer':
             r = root_name(e)
-            if r in ('self', 'this') or (r is not None and r in self.scope.locals):
-                return ('load',)
-        if self.writer_state(e):
+            root = r in ('self', 'this') or (r is not None and r in self.scope.locals)
+        if not root and not self.writer_state(e):
+            return ('src',)
+        # rooted at writer state: the object is owned when it IS a writer attribute (self.attr, W.attr) or sits at a position of
+        # the writer's state that holds a tracked object at every store site; anything else may be a cell that got there
+        # through an untracked name
+        if isinstance(e, ast.Attribute) and self.state_pred(self.scope)(e.value) and attr_shape(self.state_pred(self.scope)(e.value), e.attr, TOP) != A:
+            return ('load',)            # every value a writer class stores in that attribute is a tracked (SStore'd) or new object
+        if tracked(self.shape(e)):
             return ('load',)
-        return ('src',)
+        t = self.prog.tmp('st')
+        self.emit('assign', t, ('load',))
+        return ('cell', t)
 
     def writer_value(self, v, locals_):
         """v evaluates to a writer object of the chain: query_context.writer, or a new instance of a translated writer class"""
@@ -1024,7 +1719,7 @@ class Tr:
                 th()
         return k
 
-    def escape(self, e, mutate, row_ok=False):
+    def escape(self, e, mutate, row_ok=False, state=False):
         """the value of e escapes (stored in a container / attribute, or handed to unknown code when mutate).
         row_ok: the destination is a flat row (its cells are never trusted), so storing a CELL there needs no statement"""
         if isinstance(e, ast.Starred):
@@ -1032,7 +1727,10 @@ class Tr:
         if isinstance(e, (ast.List, ast.Tuple, ast.Set)):
             inner_row = self.depth(e) <= 1
             for x in e.elts:
-                self.escape(x, mutate, inner_row and not mutate)
+                if not mutate and not isinstance(x, ast.Starred) and not tracked(self.shape(x)):
+                    self.read(x)        # this position of the display has shape A: whoever reads it gets a CELL
+                else:
+                    self.escape(x, mutate, inner_row and not mutate)
             if not mutate:
                 return
             return
@@ -1044,8 +1742,10 @@ class Tr:
         k = self.classify(e)
         if k[0] in ('scalar', 'unknown'):
             return
-        if k[0] == 'cell' and row_ok and not mutate:
-            return
+        if (k[0] == 'cell' or not tracked(self.shape(e))) and row_ok and not mutate:
+            return                      # an untrusted value (a cell, the result of untranslated / resolved code) put into a flat row
+        if state and not mutate and not tracked(self.shape(e)):
+            return                      # kept in untracked state at a position that no reader trusts (shape A): it comes back as a CELL
         x = self.materialize(k, 'esc')
         if mutate:
             self.emit('setitem', x)
@@ -1146,8 +1846,8 @@ class Tr:
         if isinstance(e, (ast.List, ast.Tuple, ast.Set)):
             row = self.depth(e) <= 1
             for x in e.elts:
-                if isinstance(x, ast.Starred):
-                    self.read(x.value)
+                if isinstance(x, ast.Starred) or not tracked(self.shape(x)):
+                    self.read(x.value if isinstance(x, ast.Starred) else x)     # a position of shape A: read back as a CELL
                 else:
                     self.escape(x, False, row)
             return ('fresh',)
@@ -1160,10 +1860,39 @@ class Tr:
             bound = set()
             for g in e.generators:
                 bound.update(target_names(g.target))
+            parts = [e.elt] if not isinstance(e, ast.DictComp) else [e.key, e.value]
+            outer = any(isinstance(n, ast.Name) and n.id in sc.lv and n.id not in bound for n in walk_all(parts))
+            resolved = any(isinstance(n, ast.Call) and isinstance(n.func, ast.Attribute) and n.func.attr in RESOLVED_METHODS for n in walk_all(parts))
+            if (outer or resolved) and not any(g.is_async for g in e.generators) and not (bound & sc.locals):
+                # the comprehension as the loop it is: every generator binds its targets like a for statement, the element is
+                # evaluated per step and ESCAPES into the new list (SStore for a tracked object; the elements of the result are
+                # never trusted, so a cell needs no statement)
+                def gen(i):
+                    if i == len(e.generators):
+                        for x in parts:
+                            self.read(x)        # no SStore: the elements of the result are never read back as owned objects
+                        return
+                    g = e.generators[i]
+                    it = unwrap_iter(g.iter)
+                    k = self.classify(it)
+                    if k[0] not in ('scalar', 'unknown', 'src', 'var'):
+                        k = ('var', self.materialize(k, 'it'))
+                    d = self.depth(it)
+                    es = self.shape(IterElem(value=g.iter))
+
+                    def body():
+                        self.bind_iter(g.target, k, d, g, es)
+                        for c in g.ifs:
+                            self.read(c)
+                        gen(i + 1)
+                    self.emit('for', self.sub(body))
+                gen(0)
+                return ('fresh',)
+            for g in e.generators:
                 self.read(unwrap_iter(g.iter))
                 for c in g.ifs:
                     self.read(c)
-            for n in walk_all([e.elt] if not isinstance(e, ast.DictComp) else [e.key, e.value]):
+            for n in walk_all(parts):
                 if isinstance(n, ast.Name) and n.id in sc.lv and n.id not in bound:
                     self.fail(n, 'list variable %r inside a comprehension element' % n.id)
             return ('fresh',)
@@ -1191,13 +1920,19 @@ class Tr:
                 return ('scalar',)
             if kb[0] == 'unknown':
                 return ('unknown', e)
-            if self.depth(e.value) <= 1:
-                return ('cell', self.materialize(kb, 'row'))      # a cell of a flat record: never owned (rows are copied shallowly)
+            if self.depth(e.value) <= 1 or not tracked(self.shape(e)):
+                # a cell of a flat record (rows are copied shallowly), or a position that is not known to hold a tracked
+                # object at every binding / store site: never owned
+                return ('cell', self.materialize(kb, 'row'))
             return ('elem', self.materialize(kb, 'el'))
         if isinstance(e, ast.Attribute):
             if self.is_lv(e.value):
                 if e.attr in ('length', 'size'):
                     return ('scalar',)
+                if e.attr not in BUILTIN_METHODS:
+                    # not an attribute of a builtin list (reading it raises there): the variable holds some other object (a
+                    # cell value such as an aggregation token); what its field holds is never trusted
+                    return ('cell', self.v(e.value.id))
                 self.fail(e, 'attribute %r of list variable %r outside a call' % (e.attr, e.value.id))
             kb = self.classify(e.value)
             if kb[0] in ('scalar', 'unknown'):
@@ -1224,6 +1959,9 @@ class Tr:
                 if k[0] in ('scalar', 'unknown') and not last:
                     continue
                 x = self.materialize(k, 'out')
+                sa = self.shape(a)
+                if last and has_trust(sa) and norm(meet(sa, ENTRY)) != norm(ENTRY):
+                    self.flag(c, 'the emitted object has trusted positions but is not an entry (key values.., number, row)')
                 self.emit('emit', x)
             return ('scalar',)
         ftext = expr_text(f)
@@ -1242,6 +1980,11 @@ class Tr:
                 if len(cands) > 1:
                     self.fail(c, 'call of %r: %d definitions with that name' % (f.id, len(cands)))
                 return self.inline(cands[0][0], cands[0][1], c.args, c, None)
+            ctor = self.constructor_of(f.id)
+            if ctor is not None and f.id not in sc.locals:
+                # [new] C(..) for a class of the translated files: its constructor runs (what it keeps in attributes: store rule)
+                self.inline(ctor[0], ctor[2], c.args, c, (ctor[1], ctor[2]), 'writer')
+                return ('unknown', c)
         # 4. methods of the current class
         if isinstance(f, ast.Attribute) and isinstance(f.value, ast.Name) and f.value.id in ('self', 'this') and sc.cls is not None:
             targets = self.resolve_method(f.attr)
@@ -1303,23 +2046,63 @@ class Tr:
                 for a in c.args:
                     self.read(a)
                 return ('scalar',)
-            if m == 'format' and isinstance(f.value, ast.Constant):
+            if m == 'format' and (isinstance(f.value, ast.Constant) or (expr_text(f.value) is not None and root_name(f.value) not in sc.lv)):
                 for a in c.args + kwvals:
                     self.read(a)
                 return ('scalar',)
-            if expr_text(f.value) in IO_RECEIVERS:
+            if expr_text(f.value) in IO_RECEIVERS or isinstance(f.value, ast.Constant):
                 for a in c.args + kwvals:
-                    self.read(a)
+                    self.read(a)            # I/O; a method of a string / regular expression / number LITERAL only reads its arguments
                 return ('scalar',)
             kr = self.classify(f.value)
+            if kr[0] in ('cell', 'unknown') and m in RESOLVED_METHODS and not kwvals and not any(isinstance(a, ast.Starred) for a in c.args):
+                # an engine-object method that is resolved BY NAME: the receiver is an atom / builtin list (the call raises) or
+                # an instance of one of the classes of the translated files that define m: one branch per definition
+                cands = self.src.methods_named(m)
+                if cands:
+                    res = self.prog.tmp('poly')
+                    kinds = []
+
+                    def build(i):
+                        def one(cand):
+                            k = self.inline(cand[0], cand[2], c.args, c, (cand[1], cand[2]), 'writer')
+                            kinds.append(k)
+                            if k[0] in ('scalar', 'unknown'):
+                                self.emit('assign', res, ('fresh',), 'ret')
+                            else:
+                                self.assign_kind(res, k)
+                        if i == len(cands) - 1:
+                            one(cands[i])
+                            return
+                        a = self.sub(lambda: one(cands[i]))
+                        b = self.sub(lambda: build(i + 1))
+                        self.emit('if', a, b)
+                    build(0)
+                    if all(k[0] in ('scalar', 'unknown') for k in kinds):
+                        self.out[:] = strip_assigns(self.out, res)
+                        return ('unknown', c)
+                    return ('var', res)
+            if kr[0] not in ('scalar', 'unknown') and m not in CONTAINER_METHODS:
+                # a method that no builtin container has (a string method, a method of an engine object): the list objects of
+                # the model are builtin lists / arrays (ASSUMED), so the call raises or the receiver is no list object at all
+                for a in c.args + kwvals:
+                    self.escape_arg_unknown(a)
+                return ('unknown', c)
             if kr[0] not in ('scalar', 'unknown'):
                 x = self.materialize(kr, 'rcv')
                 if m in MUTATORS:
+                    if isinstance(f.value, ast.Name) and f.value.id in (sc.lossy | sc.opaque):
+                        self.flag(c, 'mutation through %r, whose view of the object may differ from that of another name' % f.value.id)
+                    # an untrusted value needs no SStore when nobody trusts the elements of the receiver: a flat row (depth), or a
+                    # NAME whose shape - equal to the shape every object it aliases promises (else flagged above) - has
+                    # untrusted elements
+                    flat = self.depth(f.value) <= 1 or (isinstance(f.value, ast.Name) and f.value.id not in (sc.lossy | sc.opaque)
+                                                        and not tracked(elem(self.shape(f.value))) and not has_trust(self.shape(f.value)))
                     for a in c.args + kwvals:
-                        self.escape(a, False, self.depth(f.value) <= 1)
+                        self.escape(a, False, flat)
                     self.emit('setitem', x)
                     if m in ELEM_METHODS:
-                        return ('elem', x) if self.depth(f.value) > 1 else ('cell', x)
+                        return ('elem', x) if (self.depth(f.value) > 1 and tracked(self.shape(c))) else ('cell', x)
                     return ('scalar',)
                 if m in COPY_METHODS:
                     for a in c.args + kwvals:
@@ -1333,7 +2116,7 @@ class Tr:
                     for a in c.args + kwvals:
                         self.read(a)
                     if m in ELEM_METHODS:
-                        return ('elem', x) if self.depth(f.value) > 1 else ('cell', x)
+                        return ('elem', x) if (self.depth(f.value) > 1 and tracked(self.shape(c))) else ('cell', x)
                     return ('scalar',)
                 # unknown method of a list object
                 self.emit('setitem', x)
@@ -1343,8 +2126,13 @@ class Tr:
                 return ('unknown', c)
             # receiver is not a list object of interest
             if m in MUTATORS:
+                self.check_state_store(f.value, mutator_site(Shaper(sc.lv, sc.shape, self.state_pred(sc)), c), c)
                 for a in c.args + kwvals:
-                    self.escape(a, False)
+                    self.escape(a, False, True, True)   # untracked container: an untrusted value stored there comes back as a CELL (shapes)
+                return ('unknown', c)
+            if m in READ_METHODS or m in COPY_METHODS or m in FRESH_METHODS:
+                for a in c.args + kwvals:
+                    self.read(a)            # ASSUMED: a method with the name of a read-only builtin method does not change its arguments
                 return ('unknown', c)
             for a in c.args + kwvals:
                 self.escape_arg_unknown(a)
@@ -1387,7 +2175,7 @@ class Tr:
                 return []          # assigned something else: treat the call as unknown
         return found
 
-    def inline(self, fdef, ffile, args, callnode, cls):
+    def inline(self, fdef, ffile, args, callnode, cls, ctx=None):
         name = fdef.name
         if name in self.stack or len(self.stack) > 12:
             # recursion: the arguments may be changed / kept by the callee
@@ -1445,8 +2233,16 @@ class Tr:
                 if ns[0] in lazy:
                     de = self.depth(args[i].elt)        # the loop variable of `for T in <parameter>` has the depth of the element
                     pdepth[ns[0]] = INF if de >= INF else de + 1
-        new = self.make_scope(fdef.body, [n for ns in pnames for n in ns], init, prefix, self.scope.ctx,
-                              cls, ffile, '%s (%s:%d)' % (name, ffile, getattr(fdef, 'lineno', 0)), pdepth, emit_alias)
+        pshape = {}
+        for i, ns in enumerate(pnames):
+            if i < len(args):
+                sa = S(self.shape(args[i].elt)) if (len(ns) == 1 and ns[0] in lazy) else self.shape(args[i])
+                for n in ns:
+                    pshape[n] = sa if len(ns) == 1 else elem(sa)
+        new = self.make_scope(fdef.body, [n for ns in pnames for n in ns], init, prefix, ctx or self.scope.ctx,
+                              cls, ffile, '%s (%s:%d)' % (name, ffile, getattr(fdef, 'lineno', 0)), pdepth, emit_alias, pshape,
+                              [ns[0] for i, ns in enumerate(pnames) if len(ns) == 1 and i < len(args) and isinstance(args[i], ast.Name)
+                               and args[i].id in (self.scope.lossy | self.scope.opaque)])
         new.lazy = lazy
         if emit_alias & new.lv:
             self.fail(callnode, 'the receiver parameter %s of %s is used as a list' % (sorted(emit_alias & new.lv), name))
@@ -1460,7 +2256,7 @@ class Tr:
                     src = self.materialize(k, 'arg')
                     for n in ns:
                         if n in new.lv:
-                            binds.append((n, ('elem', src)))
+                            binds.append((n, ('elem', src) if tracked(elem(self.shape(args[i]))) else ('cell', src)))
                 continue
             n = ns[0]
             if n in new.lv:
@@ -1493,7 +2289,7 @@ class Tr:
             return ('var', new.ret)
         return ('scalar',)
 
-    def make_scope(self, body, params, init_lv, prefix, ctx, cls, fname, label, param_depth=None, emit_alias=()):
+    def make_scope(self, body, params, init_lv, prefix, ctx, cls, fname, label, param_depth=None, emit_alias=(), param_shape=None, opaque_params=()):
         locals_ = set(params)
         for n in walk_shallow(body):
             if isinstance(n, ast.Assign):
@@ -1506,6 +2302,12 @@ class Tr:
             elif isinstance(n, ast.ExceptHandler) and n.name:
                 locals_.add(n.name)
         lv = compute_lv(body, set(init_lv) | (INTEREST & set(params)), emit_alias)
+        probe = Scope(prefix, lv, locals_, ctx, cls, fname, label)
+        probe.emit_alias = set(emit_alias)
+        for n in walk_shallow(body):
+            # a local name handed to untranslated code is tracked: if it holds a cell (or a source), the call is judged as such
+            if isinstance(n, ast.Call) and self.unknown_callee(n, probe):
+                lv |= ({a.id for a in n.args + [k.value for k in getattr(n, 'keywords', [])] if isinstance(a, ast.Name)} & locals_) - NEVER_LV - set(emit_alias)
         sc = Scope(prefix, lv, locals_, ctx, cls, fname, label)
         sc.emit_alias = set(emit_alias)
         sc.owned_alias = owned_aliases(body, params) & lv
@@ -1515,7 +2317,84 @@ class Tr:
             if p in lv and p not in pd:
                 pd[p] = INF
         sc.depth = compute_depth(body, lv, pd)
+        ps = dict(param_shape or {})
+        for p in params:
+            if p in lv and p not in ps:
+                ps[p] = A
+        sc.shape, sc.lossy = compute_shape(body, lv, ps, self.state_pred(sc))
+        for n in walk_shallow(body):
+            if isinstance(n, ast.Assign) and isinstance(n.value, ast.Call) and self.is_inlined_call(n.value, sc):
+                sc.opaque.update(x for t in n.targets for x in target_names(t) if x in lv)
+        sc.opaque.update(set(opaque_params) & lv)
+        changed = True
+        while changed:                  # whatever is bound (not to a new object) from such a name inherits the doubt
+            changed = False
+            bad = sc.lossy | sc.opaque
+            for n in walk_shallow(body):
+                v, ts = None, []
+                if isinstance(n, ast.Assign):
+                    v, ts = n.value, n.targets
+                elif isinstance(n, ast.AnnAssign) and n.value is not None:
+                    v, ts = n.value, [n.target]
+                elif isinstance(n, (ast.For, ast.AsyncFor, ast.comprehension)):
+                    v, ts = n.iter, [n.target]
+                if v is None or (is_fresh_expr(v, lv) and not isinstance(n, (ast.For, ast.AsyncFor, ast.comprehension))):
+                    continue
+                if any(isinstance(x, ast.Name) and x.id in bad for x in walk_all(v)):
+                    new = {x for t in ts for x in target_names(t) if x in lv} - bad
+                    if new:
+                        sc.opaque.update(new)
+                        changed = True
         return sc
+
+    def state_pred(self, sc):
+        """e -> the class whose state the attributes of e are (self / this in a method of that class), '*' for a writer of the
+        chain whose class is not known (query_context.writer, a writer local), None when e is not writer state"""
+        def pred(e):
+            if sc.ctx == 'writer' and is_self(e):
+                return sc.cls[0].name if sc.cls is not None else '*'
+            if expr_text(e) == 'query_context.writer' or (isinstance(e, ast.Name) and e.id in sc.wlocals):
+                return '*'
+            return None
+        return pred
+
+    def constructor_of(self, cname):
+        got = self.src.klass(cname) if not self.src.function(cname) else None
+        if got is None:
+            return None
+        for m in got[0].body:
+            if isinstance(m, (ast.FunctionDef, ast.AsyncFunctionDef)) and m.name in ('__init__', 'constructor'):
+                return (m, got[0], got[1])
+        return None
+
+    def unknown_callee(self, c, sc):
+        """the call c goes to code that is neither translated nor one of the known read-only / container operations"""
+        f = c.func
+        if isinstance(f, ast.Name):
+            if f.id in PURE_FUNCS or f.id in COPY_FUNCS or f.id in ITER_WRAPPERS or f.id in LISTY_FUNCS or f.id in EMPTY_CTORS or f.id == 'throw':
+                return False
+            return not (self.src.function(f.id) or self.constructor_of(f.id))
+        if isinstance(f, ast.Attribute):
+            m = f.attr
+            if m in MUTATORS or m in COPY_METHODS or m in FRESH_METHODS or m in READ_METHODS or m in ELEM_METHODS or m in ITER_METHODS \
+                    or m in SRC_METHODS or m in RESOLVED_METHODS or m in ('format', 'join', 'concat'):
+                return False
+            if m in ('write', 'finish') and is_emit_receiver(f.value, sc.emit_alias if sc else ()):
+                return False
+            if expr_text(f.value) in IO_RECEIVERS or (isinstance(f.value, ast.Name) and f.value.id in PURE_NAMESPACES):
+                return False
+            if is_self(f.value) and sc is not None and sc.cls is not None and any(
+                    isinstance(d, (ast.FunctionDef, ast.AsyncFunctionDef)) and d.name == m for d in sc.cls[0].body):
+                return False
+            return True
+        return True
+
+    def is_inlined_call(self, c, sc):
+        f = c.func
+        if isinstance(f, ast.Name) and f.id not in sc.lv:
+            return bool(self.src.function(f.id))
+        return isinstance(f, ast.Attribute) and is_self(f.value) and sc.cls is not None and any(
+            isinstance(m, (ast.FunctionDef, ast.AsyncFunctionDef)) and m.name == f.attr for m in sc.cls[0].body)
 
     def writer_locals(self, body, params, locals_):
         """names whose EVERY binding site in this function (nested closures included) is a plain  name = <writer value>"""
@@ -1538,7 +2417,7 @@ class Tr:
             if isinstance(s, JUMPS):
                 self.jump(s, tail)
                 return                  # anything after a jump is dead code
-            if isinstance(s, ast.If) and rest and may_jump_at_tail(s):
+            if isinstance(s, ast.If) and rest and has_jump([s]):
                 # some path through this `if` ends with return / break / continue: move the rest of the block into every
                 # branch that can fall through (recursively, when the branch is translated)
                 body, orelse = list(s.body), list(s.orelse)
@@ -1553,13 +2432,26 @@ class Tr:
                         setattr(s2, attr, getattr(s, attr))
                 self.stmt(s2, tail)
                 return
+            body_returns = isinstance(s, ast.Try) and bool(s.body) and isinstance(s.body[-1], ast.Return) \
+                and not any(isinstance(n, JUMPS) for n in walk_shallow(s.body[:-1]))
             if isinstance(s, ast.Try) and rest and not s.orelse and not s.finalbody and s.handlers \
-                    and any(may_jump_at_tail(h.body[-1]) for h in s.handlers if h.body):
+                    and (body_returns or any(has_jump(h.body) for h in s.handlers)):
                 # a handler leaves by return / break / continue while statements follow the try: the body runs (any part
                 # of it), then EITHER one handler runs - followed by the rest of the block if it can fall through - OR the
-                # rest of the block runs
-                ir = self.sub(lambda: self.block(s.body, None))
-                self.out.extend(optional(ir))
+                # rest of the block runs.  When the body itself ends with `return e` (its only jump): EITHER the whole body
+                # runs and returns, OR any part of it (e evaluated for its effects) and then a handler / the rest as above.
+                if body_returns:
+                    ret = s.body[-1]
+                    wo = list(s.body[:-1]) + ([ast.copy_location(ast.Expr(value=ret.value), ret)] if ret.value is not None else [])
+                    whole = self.sub(lambda: self.block(s.body, tail))
+                    part = self.sub(lambda: self.block(wo, None))
+                else:
+                    whole = None
+                    part = self.sub(lambda: self.block(s.body, None))
+                outer = self.out
+                if whole is not None:
+                    self.out = []
+                self.out.extend(optional(part))
 
                 def chain(j):
                     if j == len(s.handlers):
@@ -1571,6 +2463,10 @@ class Tr:
                     b = self.sub(lambda: chain(j + 1))
                     self.emit('if', a, b)
                 chain(0)
+                if whole is not None:
+                    alt = self.out
+                    self.out = outer
+                    self.emit('if', whole, alt)
                 return
             self.stmt(s, tail if last else None)
             i += 1
@@ -1602,8 +2498,8 @@ class Tr:
             return                      # break / continue at the end of a loop body: the iteration simply ends
         self.fail(s, '%s in a position that is not the end of a loop body' % type(s).__name__.lower())
 
-    def bind_target(self, t, kind, node, depth=INF):
-        """assignment of a classified value (of nesting depth `depth`) to a target"""
+    def bind_target(self, t, kind, node, depth=INF, shape=A):
+        """assignment of a classified value (of nesting depth `depth` and shape `shape`) to a target"""
         sc = self.scope
         if isinstance(t, ast.Name):
             if t.id in NEVER_LV:
@@ -1622,63 +2518,77 @@ class Tr:
                 self.fail(node, 'a source object is bound to the untracked name %r' % t.id)
             return
         if isinstance(t, (ast.Tuple, ast.List)):
-            if kind[0] == 'alts':
-                kind = ('var', self.materialize(kind, 'un'))
-            if depth <= 1 and kind[0] in ('var', 'copy', 'elem', 'concat', 'fresh', 'cell'):
-                sub = ('cell', self.materialize(kind, 'row'))       # the components of a flat record are cells
-            elif depth <= 1:
-                sub = ('scalar',)
-            elif kind[0] in ('var', 'copy', 'elem', 'concat', 'fresh'):
-                src = self.materialize(kind, 'un')
-                sub = ('elem', src)
-            elif kind[0] in ('src', 'unknown'):
-                sub = kind
-            else:
-                sub = ('scalar',)
-            for x in t.elts:
+            if kind[0] == 'alts' or (kind[0] == 'unknown' and depth > 1):
+                kind = ('var', self.materialize(kind, 'un'))        # for an untracked expression: the object itself (unknown_rhs)
+            src = None
+            if kind[0] in ('var', 'copy', 'elem', 'concat', 'fresh', 'cell'):
+                src = self.materialize(kind, 'row' if depth <= 1 else 'un')
+            starred = False
+            for i, x in enumerate(t.elts):
+                cs = elem(shape, ('any',) if starred else ('const', i))
                 if isinstance(x, ast.Starred):
                     x = x.value
+                    starred = True
+                    cs = homog(shape) if tracked(shape) else A
+                if src is not None and kind[0] != 'cell' and depth > 1 and tracked(cs):
+                    sub = ('elem', src)
+                elif src is not None:
+                    sub = ('cell', src)         # a component of a flat record, or a position not known to hold a tracked object
+                elif kind[0] == 'src' and depth > 1:
+                    sub = kind
+                else:
+                    sub = ('scalar',)
                 if sub[0] == 'src' and isinstance(x, ast.Name) and x.id not in sc.lv:
                     continue            # a component of a source tuple bound to an untracked name (bNR, bNF): a scalar
-                self.bind_target(x, sub, node, INF if depth >= INF else depth - 1)
+                self.bind_target(x, sub, node, INF if depth >= INF else depth - 1, cs if sub[0] in ('elem', 'src') else A)
             return
         if isinstance(t, ast.Subscript):
             self.store_into(t.value, node)
+            untracked = self.classify_quiet(t.value) in ('scalar', 'unknown')
+            if untracked:
+                self.check_state_store(t.value, ('base', S(elem(shape))) if isinstance(t.slice, ast.Slice)
+                                       else ('idx', self.shape(t.slice), shape, index_kind(t.value, t.slice)), node)
             if isinstance(t.slice, ast.Slice):
                 for x in (t.slice.lower, t.slice.upper, t.slice.step):
                     if x is not None:
                         self.read(x)
             else:
-                self.escape(t.slice, False)        # an object used as a key is kept by the container
-            self.escape_kind(kind, self.depth(t.value) <= 1 and self.classify_quiet(t.value) not in ('scalar', 'unknown'))
+                self.escape(t.slice, False, untracked, untracked)        # an object used as a key is kept by the container
+            self.escape_kind(kind, untracked or self.depth(t.value) <= 1, untracked and not tracked(shape))
             return
         if isinstance(t, ast.Attribute):
             kb = self.classify(t.value)
             if kb[0] not in ('scalar', 'unknown'):
                 self.fail(t, 'attribute store on a list-valued expression')
+            cur = attr_shape(self.state_pred(sc)(t.value), t.attr, A) if self.state_pred(sc)(t.value) else A
+            if has_trust(cur) and norm(meet(cur, shape)) != norm(cur):
+                self.flag(node, 'a writer attribute with trusted positions is assigned a value that does not have them')
             if expr_text(t) == 'query_context.writer':
                 v = getattr(node, 'value', None)
                 if not (isinstance(node, ast.Assign) and (self.writer_value(v, sc.locals) or (isinstance(v, ast.Name) and v.id in sc.wlocals))):
                     self.fail(node, 'query_context.writer is assigned something that is not a writer of the chain')
-            self.escape_kind(kind)
+            self.escape_kind(kind, True, not tracked(shape))    # untracked state: an untrusted value kept there comes back as a CELL
             return
         self.fail(node, 'assignment target form %s' % type(t).__name__)
 
-    def bind_iter(self, target, k, d, node):
-        """target = an element of the iterable of kind k (normalised: var / src / unknown / scalar) and nesting depth d"""
+    def bind_iter(self, target, k, d, node, es=A):
+        """target = an element of the iterable of kind k (normalised: var / src / unknown / scalar), nesting depth d; es = the
+        shape of the element (trusted as an owned object only when it is tracked)"""
         de = INF if d >= INF else max(0, d - 1)
+        if k[0] == 'unknown' and d > 1 and not any(n in self.scope.lv for n in target_names(target)):
+            k = ('scalar',)                                     # no tracked name is bound: nothing to say
+        if k[0] == 'unknown' and d > 1:
+            k = ('var', self.materialize(k, 'cont'))            # the untracked container object itself (unknown_rhs), then its element
         if d <= 1 and k[0] == 'var':
-            self.bind_target(target, ('cell', k[1]), node, 0)    # iterating a flat record: its cells
+            self.bind_target(target, ('cell', k[1]), node, 0, A)    # iterating a flat record: its cells
         elif d <= 1:
-            self.bind_target(target, ('scalar',), node, 0)
+            self.bind_target(target, ('scalar',), node, 0, A)
         elif k[0] == 'var':
-            self.bind_target(target, ('elem', k[1]), node, de)
+            self.bind_target(target, ('elem', k[1]) if tracked(es) else ('cell', k[1]), node, de, es)
         elif k[0] == 'src':
-            self.bind_target(target, ('src',), node, de)
-        elif k[0] == 'unknown':
-            self.bind_target(target, k, node, de)
+            self.bind_target(target, ('src',), node, de, es)
         else:
-            self.bind_target(target, ('scalar',), node, 0)
+            self.bind_target(target, ('scalar',), node, 0, A)
 
     def classify_quiet(self, e):
         """the kind tag of e without emitting anything"""
@@ -1689,8 +2599,8 @@ class Tr:
         self.sub(lambda: box.append(self.classify(e)[0]))
         return box[0]
 
-    def escape_kind(self, kind, row_ok=False):
-        if kind[0] in ('scalar', 'unknown'):
+    def escape_kind(self, kind, row_ok=False, silent=False):
+        if kind[0] in ('scalar', 'unknown') or silent:
             return
         if kind[0] == 'cell' and row_ok:
             return
@@ -1706,6 +2616,8 @@ class Tr:
         kb = self.classify(base)
         if kb[0] in ('scalar', 'unknown'):
             return
+        if isinstance(base, ast.Name) and base.id in (self.scope.lossy | self.scope.opaque):
+            self.flag(node, 'mutation through %r, whose view of the object may differ from that of another name' % base.id)
         if kb[0] == 'src':
             x = self.prog.tmp('m')
             self.emit('assign', x, ('src',))
@@ -1733,30 +2645,34 @@ class Tr:
                     else:
                         tmps.append(('var', self.materialize(k, 'par')))
                 for t, k, v in zip(s.targets[0].elts, tmps, s.value.elts):
-                    self.bind_target(t, k, s, self.depth(v))
+                    self.bind_target(t, k, s, self.depth(v), self.shape(v))
                 return
             kind = self.classify(s.value)
             if len(s.targets) > 1 and kind[0] not in ('scalar', 'unknown', 'var'):
                 kind = ('var', self.materialize(kind, 'multi'))
             for t in s.targets:
-                self.bind_target(t, kind, s, self.depth(s.value))
+                self.bind_target(t, kind, s, self.depth(s.value), self.shape(s.value))
             return
         if isinstance(s, ast.AnnAssign):
             if s.value is not None:
-                self.bind_target(s.target, self.classify(s.value), s, self.depth(s.value))
+                self.bind_target(s.target, self.classify(s.value), s, self.depth(s.value), self.shape(s.value))
             return
         if isinstance(s, ast.AugAssign):
             t = s.target
             if isinstance(t, ast.Name):
                 if t.id in sc.lv:
                     self.read(s.value)
+                    if t.id in (sc.lossy | sc.opaque):
+                        self.flag(s, 'mutation through %r, whose view of the object may differ from that of another name' % t.id)
                     self.emit('setitem', self.v(t.id))
                 else:
                     self.read(s.value)
                 return
             if isinstance(t, ast.Subscript):
                 self.store_into(t.value, s)
-                self.escape(t.slice, False) if not isinstance(t.slice, ast.Slice) else None
+                if not isinstance(t.slice, ast.Slice):
+                    un = self.classify_quiet(t.value) in ('scalar', 'unknown')
+                    self.escape(t.slice, False, un, un)
                 self.read(s.value)
                 return
             if isinstance(t, ast.Attribute):
@@ -1809,16 +2725,17 @@ class Tr:
                     self.scope = la.scope
                     try:
                         g = la.gen.generators[0]
-                        self.bind_iter(g.target, la.kind, la.depth, g)
+                        self.bind_iter(g.target, la.kind, la.depth, g, self.shape(IterElem(value=g.iter)))
                         for c in g.ifs:
                             self.read(c)
                         ek = self.classify(la.gen.elt)
                         de = self.depth(la.gen.elt)
+                        esh = self.shape(la.gen.elt)
                         if ek[0] != 'scalar':
                             ek = ('var', self.materialize(ek, 'gen'))
                     finally:
                         self.scope = sc
-                    self.bind_target(s.target, ek, s, de)
+                    self.bind_target(s.target, ek, s, de, esh)
                     self.block(s.body, 'loop')
                 self.loop(body, s, tail)
                 return
@@ -1828,8 +2745,10 @@ class Tr:
                 k = ('var', self.materialize(k, 'it'))
             d = self.depth(it)
 
+            es = self.shape(IterElem(value=s.iter))
+
             def body():
-                self.bind_iter(s.target, k, d, s)
+                self.bind_iter(s.target, k, d, s, es)
                 self.block(s.body, 'loop')
             self.loop(body, s, tail)
             return
@@ -1952,7 +2871,11 @@ def translate_writer(lang, source, cname):
                 raise TranslateError('%s:%d: %s.write has no record parameter' % (cfile, m.lineno, cname))
             init = {params[-1]}
         pdepth = {p: (1 if p in ROW_NAMES else INF) for p in params}
-        tr.scope = tr.make_scope(m.body, params, init, mname + '.', 'writer', (cdef, cfile), cfile, '%s.%s (%s:%d)' % (cname, mname, cfile, m.lineno), pdepth)
+        pshape = {p: (FLAT if p in ROW_NAMES else A) for p in params}
+        if mname == 'write' and params[-1] not in ROW_NAMES:
+            pshape[params[-1]] = ENTRY          # see ASSUMED: an entry writer heads the chain
+        tr.scope = tr.make_scope(m.body, params, init, mname + '.', 'writer', (cdef, cfile), cfile, '%s.%s (%s:%d)' % (cname, mname, cfile, m.lineno), pdepth,
+                                 (), pshape)
         if mname == 'write':
             # the record parameter is PARAM (variable 0)
             prog.vars[tr.scope.prefix + params[-1]] = 0
@@ -1993,6 +2916,8 @@ def main():
                 source.add_js(os.path.join(REPO, 'rbql-js', 'rbql.js'))
                 source.add_js(os.path.join(REPO, 'rbql-js', 'rbql_csv.js'))
                 items = generated_js()
+            LANG[0] = lang
+            attr_shapes(source)
             wnames = []
             for cname in WRITER_CLASSES:
                 prog, res = translate_writer(lang, source, cname)
@@ -2037,6 +2962,9 @@ def main():
     v.extend(thms)
     import re
     facts['theorems'] = re.findall(r'^Theorem (\w+)', '\n'.join(thms), flags=re.M)
+    facts['flags'] = sorted(set(FLAGS))
+    for x in facts['flags']:
+        print('translate_heap: never-safe statement emitted: %s' % x, file=sys.stderr)
     with open(os.path.join(outdir, 'HeapFacts.v'), 'w') as f:
         f.write('\n'.join(v) + '\n')
     with open(os.path.join(outdir, 'HeapFacts.json'), 'w') as f:
